@@ -29,6 +29,9 @@ props! {
     c11 => "C11",
     c12 => "C12",
     c14 => "C14",
+    c27 => "C27",
+    c28 => "C28",
+    c29 => "C29",
     c31 => "C31",
     c32 => "C32",
     c33 => "C33",
